@@ -14,6 +14,8 @@ import (
 
 type C19Series struct {
 	X []float64 `json:"x"`
+	// EmptyKind, for an empty series: 0 = nil, 1 = empty non-nil slice, 2 = empty slice of a longer array
+	EmptyKind int `json:"empty_kind,omitempty"`
 }
 
 // call runs one accessor and turns a panic into an error naming the accessor.
@@ -62,6 +64,16 @@ func refQuantile(sorted []float64, p float64) float64 {
 func CheckC19Series(c C19Series, rec *Rec) error {
 	x := experiment.Floats(append([]float64(nil), c.X...))
 	n := len(x)
+	if n == 0 {
+		switch c.EmptyKind {
+		case 1:
+			x = experiment.Floats{}
+			rec.Class("empty series that is not nil")
+		case 2:
+			x = experiment.Floats([]float64{1, 2, 3}[:0])
+			rec.Class("empty series that is not nil")
+		}
+	}
 	sorted := append([]float64(nil), c.X...)
 	sortFloats(sorted)
 	isSorted := true
@@ -170,9 +182,19 @@ func CheckC19Series(c C19Series, rec *Rec) error {
 	return nil
 }
 
+func genC19Series(maxLen int) *rapid.Generator[C19Series] {
+	gen := genSeries(maxLen)
+	return rapid.Custom(func(t *rapid.T) C19Series {
+		c := C19Series{X: gen.Draw(t, "series")}
+		if len(c.X) == 0 {
+			c.EmptyKind = rapid.IntRange(0, 2).Draw(t, "empty kind")
+		}
+		return c
+	})
+}
+
 func TestC19Series(t *testing.T) {
-	gen := genSeries(pick(200, 400))
-	runProp(t, "C19", "series", 20000, 300000, mapGen(gen, func(x []float64) C19Series { return C19Series{X: x} }), CheckC19Series)
+	runProp(t, "C19", "series", 20000, 300000, genC19Series(pick(200, 400)), CheckC19Series)
 }
 
 /* ---- aggregates over experiment records ---- */
